@@ -331,15 +331,18 @@ def changeable_check(c, seed, n):
             else:
                 out_.append(f"Call {op['call'][0]} {term(op['call'][1])}")
         return coq_list(out_)
-    res, err = coq_eval("c13ch", ["Fs.Changeable", "Run.EvalC13"], [f"(eval_changeable {term(cs_['ops'])})%N" for cs_ in cases])
+    res, err = coq_eval("c13ch", ["Fs.Changeable", "Run.EvalC13"], [f"(eval_changeable {term(cs_['ops'])})%N" for cs_ in cases] +
+                        [f"(eval_changeable_spec {term(cs_['ops'])})%N" for cs_ in cases])
     if err:
         c.errors.append("model evaluation failed: " + err[-800:])
         return
-    for case, o, m in zip(cases, obs, res):
+    for case, o, mt, m in zip(cases, obs, res[:len(cases)], res[len(cases):]):
         c.evaluations += 1
         c.count("changeable script")
         mres, mtr = m.split(" ", 1)
         impl = o["res"] + " " + ("[]" if o["res"] == "badhandle" else "[" + ",".join(o["trace"]) + "]")
+        if impl != mt:
+            c.disagreements.append({"case": case, "impl": impl, "model": mt, "what": "ChangeableFn vs the model in the translated modes"})
         if impl == m:
             c.validated += 1
         else:
